@@ -183,6 +183,100 @@ fn run_c13(n: usize) -> Result<Value, String> {
 }
 
 // ---------------------------------------------------------------------------------------------
+// C03 (b), as compile-time assertions: cheap enough for hundreds of definitions
+
+fn c03_check(ext: &Externs, dir: &std::path::Path, tag: &str, h: &RHistory) -> Result<Option<(Vec<&'static str>, bool)>, (String, String)> {
+    let (built, text) = match module_text(h, &Ext::default(), h.fragsel) {
+        Some(x) => x,
+        None => return Ok(None),
+    };
+    let def = dir.join(format!("{}_def.rs", tag));
+    let wrap = dir.join(format!("{}.rs", tag));
+    fs::write(&def, &text).expect("write module");
+    let mut w = wrap_module(&def);
+    let n = built.def.variants().count();
+    for (cap, cap_name) in [("{ m::MAX_SIZE }", "MAX_SIZE"), ("{ m::MAX_SIZE + 5 }", "MAX_SIZE+5"), ("{ m::MAX_SIZE + 64 }", "MAX_SIZE+64")] {
+        for v in 0..n {
+            w.push_str(&format!(
+                "const _: () = assert!(std::mem::size_of::<m::RecordUninitialized<{cap}>>() == std::mem::size_of::<m::CappedRecord{v}<{cap}>>(), \"C03: size_of CappedRecord{v} differs from RecordUninitialized at CAP {cn}\");\n\
+                 const _: () = assert!(std::mem::align_of::<m::RecordUninitialized<{cap}>>() == std::mem::align_of::<m::CappedRecord{v}<{cap}>>(), \"C03: align_of CappedRecord{v} differs from RecordUninitialized at CAP {cn}\");\n",
+                cap = cap,
+                v = v,
+                cn = cap_name
+            ));
+            if v > 0 {
+                w.push_str(&format!(
+                    "const _: () = assert!(std::mem::size_of::<m::CappedRecord0<{cap}>>() == std::mem::size_of::<m::CappedRecord{v}<{cap}>>() && std::mem::align_of::<m::CappedRecord0<{cap}>>() == std::mem::align_of::<m::CappedRecord{v}<{cap}>>(), \"C03: CappedRecord{v} and CappedRecord0 differ in size or alignment at CAP {cn}\");\n",
+                    cap = cap,
+                    v = v,
+                    cn = cap_name
+                ));
+            }
+        }
+    }
+    fs::write(&wrap, w).expect("write wrapper");
+    let r = rustc(ext, &wrap, dir, None);
+    if r.ok {
+        let per_variant: BTreeSet<usize> = built
+            .def
+            .variants()
+            .map(|v| v.data().map(|d| built.def[d].details().type_align()).max().unwrap_or(1))
+            .collect();
+        let mut classes = def_classes(&built);
+        // the most aligned datum of the definition is not in every variant
+        let nontrivial = n >= 3 && per_variant.len() >= 2;
+        if per_variant.len() >= 2 {
+            classes.push("variants_differ_in_max_alignment");
+        }
+        return Ok(Some((classes, nontrivial)));
+    }
+    if r.stderr.contains("HARNESS:") {
+        return Err(("harness-io".into(), r.stderr));
+    }
+    if let Some(pos) = r.stderr.find("C03:") {
+        let msg: String = r.stderr[pos..].lines().next().unwrap_or("").to_string();
+        return Err(("layouts-differ".into(), msg));
+    }
+    // does not compile for another reason: C13's business
+    Ok(None)
+}
+
+fn run_c03(n: usize) -> Result<Value, String> {
+    let ext = discover_externs()?;
+    let dir = work_dir("c03");
+    let histories = sample(&rhistory(), n, 0xC03);
+    let results = parallel(histories.len(), env_threads(), |i| c03_check(&ext, &dir, &format!("p{}", i), &histories[i]));
+    let mut out = Acc::default();
+    for (i, r) in results.into_iter().enumerate() {
+        match r {
+            Ok(Some((classes, nontrivial))) => out.pass(&histories[i], nontrivial, &classes, &[]),
+            Ok(None) => out.label("skipped_not_compiling_or_panicking"),
+            Err((sig, msg)) => {
+                out.evaluations += 1;
+                if out.failures.len() < 3 {
+                    if sig == "harness-io" {
+                        out.fail(&histories[i], &sig, &msg);
+                    } else {
+                        let sig2 = sig.clone();
+                        let shrunk = shrink_history(&histories[i], 60, &|h| matches!(c03_check(&ext, &dir, &format!("s{}", i), h), Err((s, _)) if s == sig2));
+                        let msg = match c03_check(&ext, &dir, &format!("s{}", i), &shrunk) {
+                            Err((_, m)) => m,
+                            _ => msg,
+                        };
+                        out.fail(&shrunk, &sig, &format!("compile-time comparison of the generated record types: {}", msg));
+                    }
+                }
+            }
+        }
+    }
+    let _ = fs::remove_dir_all(&dir);
+    Ok(out.to_json(
+        "C03",
+        "part (b) as compile-time assertions: definitions generated over the real field-type menu (as for C13 b); for CAP in {MAX_SIZE, MAX_SIZE+5, MAX_SIZE+64} size_of and align_of of RecordUninitialized and every CappedRecordN must be equal (const assertions type-checked by rustc). non-trivial: >= 3 variants whose maximal field alignments differ; distinct by hash of the history",
+    ))
+}
+
+// ---------------------------------------------------------------------------------------------
 // C11
 
 #[derive(Clone, Debug, Serialize, Deserialize, Hash, PartialEq, Eq)]
@@ -594,6 +688,7 @@ fn main() -> ExitCode {
         let n: usize = args[3].parse().expect("n");
         let res = match args[2].as_str() {
             "C13" => run_c13(n),
+            "C03" => run_c03(n),
             "C11" => run_c11(n),
             "C14" => run_c14(n),
             "C17" => c17::run_c17(n),
@@ -635,6 +730,10 @@ fn main() -> ExitCode {
                 Err(e) => Err(("bad-replay-file".into(), e.to_string())),
             },
             "C17" => c17::replay(&case),
+            "C03" => match serde_json::from_value::<RHistory>(case) {
+                Ok(h) => c03_check(&ext, &dir, "r", &h).map(|_| ()),
+                Err(e) => Err(("bad-replay-file".into(), e.to_string())),
+            },
             _ => Err(("replay-unsupported".into(), "replay of this property re-runs the whole batch: use the quick check".into())),
         };
         let _ = fs::remove_dir_all(&dir);
